@@ -75,6 +75,10 @@ HYDRATE = dict(SEEDED_G, **{"Connections": "TRUE"})
 SEEDED_RET = dict(SEEDED_G, **{"SeedTail": "FALSE", "SeedMaint": '"mc2"', "Maints": "<- c_Maints2"})
 
 # import from an empty database: snapshot first, then import + commit with no journaled write in between
+# configurations the index constructor refuses next to a valid one: a refused create must leave nothing behind (its
+# journal record used to shadow a later valid create of the same name after a restart)
+BADCFG = dict(BASE, **{"Cfgs": "<- c_CfgsBad", "Keys": "<- c_Empty", "KVals": "<- c_Empty", "Maints": "<- c_Empty", "ALs": "<- c_Empty",
+                       "Targets": "<- c_Empty", "MVals": "<- c_MVals1", "Vecs": "<- c_Vecs1b", "MaxFile": 5, "MaxRej": 2})
 IMPORT0 = dict(BASE, **{"Imports": "TRUE", "Keys": "<- c_Empty", "KVals": "<- c_Empty", "Cfgs": "<- c_CfgsB", "Maints": "<- c_Empty",
                         "ALs": "<- c_Empty", "Targets": "<- c_Empty", "MVals": "<- c_MVals1", "MaxFile": 5, "MaxRej": 0, "MaxCtr": 4})
 
@@ -290,6 +294,15 @@ def run(prop, tier):
         for i, b in enumerate(b5):
             b["id"] = "im%d" % i
         plans.append((imp, b5))
+    if use_base:
+        bc_ = dict(BADCFG, MaxOps=3 if quick else 4)
+        # (random walks: a refused call leaves the state where it was, so BFS never continues a history through one)
+        cbad = corpus(chk, "MC_Kektor_badcfg_walks", dict(bc_, MaxOps=7, MaxFile=7, MaxCtr=5), simulate=300 if quick else 6000, depth=7, workers=1)
+        refused_cfg = lambda ops: any(o.get("op") == "VCreate" and o.get("cfg") in ("c16", "ei8") for o in ops[:-1])
+        bb, _ = vlib.behaviours_from_corpus(cbad, max_behaviours=150 if quick else 5000, rng=rng, need=refused_cfg)
+        for i, b in enumerate(bb):
+            b["id"] = "bc%d" % i
+        plans.append((bc_, bb))
     if prop in ("C01", "C04"):
         i0 = dict(IMPORT0, MaxOps=4 if quick else 5)
         c0 = corpus(chk, "MC_Kektor_import0_corpus", i0, workers=8, timeout=3000)
